@@ -134,8 +134,20 @@ class B(e1.Bundle):
     pass
 
 
+class _NotThere:
+    """Stand-in for a per-task buffer the wrapper has not created (yet): an empty buffer as far as the observations go."""
+
+    current_len = 0
+    insert_idx = 0
+    buffer = {}
+    buffer_size = 0
+
+    def __len__(self):
+        return 0
+
+
 def buffers_of(b):
-    return b.buffers if hasattr(b, "buffers") else [b]
+    return [x if x is not None else _NotThere() for x in b.buffers] if hasattr(b, "buffers") else [b]
 
 
 def canon(bd):
